@@ -19,7 +19,7 @@ INTERESTING = {'connect_right_like', 'rename_gate', 'replace_subcircuit', 'into_
 
 def _arity(typ, a):
     if typ in refsem.CONST:
-        return 0
+        return 0 if a % 3 else 2  # constants may carry (ignored) operands
     if typ in refsem.UNARY:
         return 1
     if typ in refsem.FIXED_BINARY:
